@@ -474,6 +474,21 @@ func (s *writer) packetFitsSize(value interface{}) bool {
 		return false
 	}
 
+	// the writer adds properties to a PUBLISH right before it is transmitted (remaining message
+	// expiry, topic alias): they count against the maximum packet size announced by the client
+	if p, ok := value.(*mqttp.Publish); ok && s.version >= mqttp.ProtocolV50 {
+		if expireAt, _, _ := p.Expired(); !expireAt.IsZero() {
+			sz += 5
+		}
+
+		if s.topicAliasMax > 0 {
+			sz += 3
+		}
+
+		// property length and remaining length may need one more byte each
+		sz += 2
+	}
+
 	// ignore any packet with size bigger than negotiated
 	if sz > int(s.packetMaxSize) {
 		s.log.Warn("Ignore packet with size bigger than negotiated with client",
